@@ -238,7 +238,7 @@ def explore(members, endian, align, depth, res: JobResult, embed=None):
         issue("load:raises", f"{impl.exc_sig(e)} {e!r}")
         return
     res.transitions += 1
-    if len(cs.U) != size or (cs.U.alignment or 1) != al:
+    if len(cs.U) != size or (align and (cs.U.alignment or 1) != al):
         issue("layout:size", f"len(U)={len(cs.U)} alignment={cs.U.alignment}, model size {size} alignment {al}")
         return
     # parsing at an arbitrary stream position consumes exactly the union's size
